@@ -834,14 +834,14 @@ type e2Summary struct {
 }
 
 type e2Config struct {
-	bigSync   bool   // sync WAL with values larger than the WAL buffer
-	mode      string // sync | async | c17
-	big       bool
+	bigSync    bool   // sync WAL with values larger than the WAL buffer
+	mode       string // sync | async | c17
+	big        bool
 	directSync bool // sync mode: the second session is opened with the direct-I/O WAL option (and without the async option)
-	directWAL bool // the big asynchronous session logs through the direct-I/O WAL writer (database directory on a real disk)
-	seed      int64
-	nkeys     int
-	maxImages int // 0 = all
+	directWAL  bool // the big asynchronous session logs through the direct-I/O WAL writer (database directory on a real disk)
+	seed       int64
+	nkeys      int
+	maxImages  int // 0 = all
 }
 
 // e2RunSession traces one session, replays it and judges every distinct crash image.
